@@ -18,7 +18,8 @@ func init() { Registry["C15"] = C15 }
 var c15Decoys = []core.Tree{
 	{"crs/regex-assembly/notes.txt": "notes\n", "crs/regex-assembly/notes.raw": "a\n"},
 	{"crs/regex-assembly/123456.ra.bak": "  unformatted\n\n\n", "crs/regex-assembly/include/inc.ra~": " x\n"},
-	{"crs/rules/REQUEST-222-X.conf.bak": setupExample, "crs/rules/notes.txt": "# OWASP CRS ver.3.0.0\n", "crs/x.confx": setupExample, "crs/example": setupExample},
+	{"crs/rules/REQUEST-222-X.conf.bak": setupExample, "crs/rules/notes.txt": "# OWASP CRS ver.3.0.0\n", "crs/x.confx": setupExample, "crs/example": setupExample,
+		"crs/rules/modsecurity_conf": setupExample, "crs/httpd-vhost-conf": setupExample, "crs/setup-example": setupExample, "crs/rules/Xconf": setupExample, "crs/rules/a.conf.example.txt": setupExample},
 	{"crs/tests/regression/tests/REQUEST-123-TEST/654321.bak.yaml": testYaml, "crs/tests/regression/tests/REQUEST-123-TEST/1234567.yaml": testYaml},
 	{"crs/tests/regression/tests/REQUEST-123-TEST/654322.txt": testYaml, "crs/tests/regression/tests/REQUEST-123-TEST/654323.yaml.disabled": testYaml + "\n\n", "crs/tests/regression/tests/REQUEST-123-TEST/NOTES.md": "tests:\n  - test_id: 4", "crs/tests/regression/tests/REQUEST-123-TEST/123456.txt": testYaml,
 		"crs/tests/regression/tests/REQUEST-123-TEST/12345.yaml": testYaml, "crs/tests/regression/654321.yaml.orig": testYaml, "crs/tests/654321.yaml": testYaml},
@@ -61,6 +62,17 @@ func c15Commands() []c15Cmd {
 		{Name: "renumber --check", Args: []string{"util", "renumber-tests", "--check", "123456"}, Inspect: true},
 		{Name: "renumber --all --check", Args: []string{"util", "renumber-tests", "--all", "--check"}, Inspect: true},
 		{Name: "renumber --all --check github", Args: []string{"-o", "github", "util", "renumber-tests", "-a", "-c"}, Inspect: true},
+		// targets that do not exist: nothing may come into existence either
+		{Name: "format --check missing rule", Args: []string{"regex", "format", "--check", "123460"}, Inspect: true},
+		{Name: "format --check missing chain file", Args: []string{"regex", "format", "-c", "123456-chain7"}, Inspect: true},
+		{Name: "format --check missing include", Args: []string{"regex", "format", "-c", "nosuchinclude"}, Inspect: true},
+		{Name: "format --check path outside", Args: []string{"regex", "format", "-c", "../../../outside/newfile"}, Inspect: true},
+		{Name: "format missing rule", Args: []string{"regex", "format", "123460"}, Inspect: true},
+		{Name: "generate missing", Args: []string{"regex", "generate", "123460"}, Inspect: true},
+		{Name: "compare missing", Args: []string{"regex", "compare", "123460"}, Inspect: true},
+		{Name: "update missing", Args: []string{"regex", "update", "123460"}, Inspect: true},
+		{Name: "renumber --check missing", Args: []string{"util", "renumber-tests", "-c", "123460"}, Inspect: true},
+		{Name: "renumber missing", Args: []string{"util", "renumber-tests", "123460"}, Inspect: true},
 		{Name: "version", Args: []string{"version"}, Inspect: true},
 		{Name: "--version", Args: []string{"--version"}, Inspect: true},
 		{Name: "help", Args: []string{"regex", "--help"}, Inspect: true},
